@@ -104,7 +104,7 @@ Definition run_case (c : c04_case) : list Z :=
 Record vote_case := mkVC { vc_spec : spec; vc_lims : list qlim_spec; vc_reclaim : bool;
                            vc_preemptor : positive; vc_cands : list positive }.
 Definition dVoteCase : dec vote_case :=
-  let* sp := dSpec in let* l := dList dQlim in let* r := dBool in let* p := dPos in let* cs := dList dPos in
+  let* sp := dSpec in let* r := dBool in let* p := dPos in let* cs := dList dPos in let* l := dList dQlim in
   ret (mkVC sp l r p cs).
 
 Definition run_vote (c : vote_case) : list Z :=
